@@ -15,6 +15,7 @@ import (
 	"fmt"
 	"github.com/tuneinsight/lattigo/v6/circuits/ckks/bootstrapping"
 	"io"
+	"math/big"
 	"math/rand"
 	"os"
 	"reflect"
@@ -148,13 +149,19 @@ func (e *env) build() {
 		}
 		return &x
 	}, func() object { return &structs.Map[int, ring.Poly]{} })
-	e.add("rlwe.MetaData", 3, func(v int) object {
+	e.add("rlwe.MetaData", 5, func(v int) object {
 		m := &rlwe.MetaData{}
-		m.Scale = rlwe.NewScale(float64(uint64(1) << uint(10*v)))
+		m.Scale = rlwe.NewScale(float64(uint64(1) << uint(10*(v%3))))
+		switch v {
+		case 3: // a scale whose mantissa fills the 128 bits (what a rescaled product carries: 2^90 / q)
+			m.Scale = rlwe.NewScale(new(big.Float).SetPrec(256).SetMantExp(big.NewFloat(1), 90)).Div(rlwe.NewScale(p.Q()[0]))
+		case 4: // an integer scale modulo t
+			m.Scale = rlwe.NewScaleModT(12345, 65537)
+		}
 		m.IsNTT = v != 1
 		m.IsMontgomery = v == 0
 		m.IsBatched = v != 2
-		m.LogDimensions = ring.Dimensions{Rows: v, Cols: 3 - v}
+		m.LogDimensions = ring.Dimensions{Rows: v % 3, Cols: 3 - v%3}
 		return m
 	}, func() object { return &rlwe.MetaData{} })
 	e.add("rlwe.Plaintext", 3, func(v int) object {
@@ -162,6 +169,9 @@ func (e *env) build() {
 		pt.IsNTT = v != 1
 		pt.IsMontgomery = v == 2
 		pt.Scale = rlwe.NewScale(float64(5 + v))
+		if v == 1 {
+			pt.Scale = rlwe.NewScale(new(big.Float).SetPrec(256).SetMantExp(big.NewFloat(1), 90)).Div(rlwe.NewScale(p.Q()[0]))
+		}
 		return pt
 	}, func() object { return &rlwe.Plaintext{} })
 	e.add("rlwe.Ciphertext", 5, func(v int) object {
